@@ -1,1 +1,218 @@
-// harness file fdl_token_ring (see /verif/DESIGN.md)
+// C02 harnesses (L1): src/fdl/token_ring.rs, as crate::fdl::token_ring::verif.
+//
+// `Model` is a reference model of the list of active stations on a u128 (bit a = station a),
+// written from the FDL description of LAS maintenance, not from the bitvec code.
+
+use super::*;
+
+pub(crate) const ADDR_MASK: u128 = (1u128 << 126) - 1; // addresses 0..=125
+
+#[derive(Clone, Copy, PartialEq, Eq)]
+pub(crate) enum MLas {
+    Uninitialized,
+    Discovery,
+    Verification,
+    Valid,
+}
+
+#[derive(Clone, Copy, PartialEq, Eq)]
+pub(crate) struct Model {
+    pub las: u128,
+    pub state: MLas,
+    pub ts: u8,
+    pub ns: u8,
+    pub ps: u8,
+}
+
+/// bits strictly between `lo` and `hi` (exclusive both), lo < hi <= 128
+fn bits_between(lo: u8, hi: u8) -> u128 {
+    // bits lo+1 ..= hi-1
+    if hi <= lo + 1 {
+        return 0;
+    }
+    let upto_hi = if hi >= 128 { u128::MAX } else { (1u128 << hi) - 1 }; // bits 0..hi-1
+    let upto_lo = (1u128 << (lo + 1)) - 1; // bits 0..lo
+    upto_hi & !upto_lo
+}
+
+/// Cyclic open interval (sa, da) over 0..=127: the stations a token pass sa->da jumps over.
+pub(crate) fn jumped_over(sa: u8, da: u8) -> u128 {
+    if da > sa {
+        bits_between(sa, da)
+    } else {
+        // sa+1 .. 127 and 0 .. da-1
+        let high = bits_between(sa, 128);
+        let low = if da == 0 { 0 } else { (1u128 << da) - 1 };
+        high | low
+    }
+}
+
+impl Model {
+    pub(crate) fn neighbours(las: u128, ts: u8) -> (u8, u8) {
+        // NS: lowest member above TS, else lowest member, else TS
+        let above = las & !((1u128 << (ts + 1)) - 1);
+        let ns = if above != 0 {
+            above.trailing_zeros() as u8
+        } else if las != 0 {
+            las.trailing_zeros() as u8
+        } else {
+            ts
+        };
+        // PS: highest member below TS, else highest member, else TS
+        let below = las & ((1u128 << ts) - 1);
+        let ps = if below != 0 {
+            (127 - below.leading_zeros()) as u8
+        } else if las != 0 {
+            (127 - las.leading_zeros()) as u8
+        } else {
+            ts
+        };
+        (ns, ps)
+    }
+
+    pub(crate) fn update_from_pass(&mut self, sa: u8, da: u8) {
+        // everything from SA (inclusive) up to DA (exclusive) is cleared, then SA is entered
+        self.las &= !(jumped_over(sa, da));
+        self.las |= 1u128 << sa;
+        let (ns, ps) = Self::neighbours(self.las, self.ts);
+        self.ns = ns;
+        self.ps = ps;
+    }
+
+    pub(crate) fn verify_pass(&self, sa: u8, da: u8) -> bool {
+        self.las >> sa & 1 == 1 && self.las >> da & 1 == 1 && self.las & jumped_over(sa, da) == 0
+    }
+
+    pub(crate) fn witness(&mut self, sa: u8, da: u8) {
+        if sa > 125 || da > 125 {
+            return;
+        }
+        match self.state {
+            MLas::Uninitialized => {
+                if da <= sa {
+                    self.state = MLas::Discovery;
+                }
+            }
+            MLas::Discovery => {
+                self.update_from_pass(sa, da);
+                if da <= sa {
+                    self.state = MLas::Verification;
+                }
+            }
+            MLas::Verification => {
+                if !self.verify_pass(sa, da) {
+                    self.update_from_pass(sa, da);
+                    self.state = MLas::Discovery;
+                } else if da <= sa {
+                    self.state = MLas::Valid;
+                }
+            }
+            MLas::Valid => self.update_from_pass(sa, da),
+        }
+    }
+
+    pub(crate) fn set_next(&mut self, a: u8) {
+        self.las |= 1u128 << a;
+        self.update_from_pass(self.ts, a);
+    }
+
+    pub(crate) fn remove(&mut self, a: u8) {
+        self.las &= !(1u128 << a);
+        let (ns, ps) = Self::neighbours(self.las, self.ts);
+        self.ns = ns;
+        self.ps = ps;
+    }
+
+    pub(crate) fn claim(&mut self) {
+        self.state = MLas::Valid;
+    }
+}
+
+// ---- bridging between the real struct and the model -----------------------------------------
+
+pub(crate) fn words_of(las: u128) -> [usize; 2] {
+    [las as u64 as usize, (las >> 64) as u64 as usize]
+}
+
+pub(crate) fn las_of(r: &TokenRing) -> u128 {
+    (r.active_stations.data[0] as u128) | ((r.active_stations.data[1] as u128) << 64)
+}
+
+fn mstate(s: LasState) -> MLas {
+    match s {
+        LasState::Uninitialized => MLas::Uninitialized,
+        LasState::Discovery => MLas::Discovery,
+        LasState::Verification => MLas::Verification,
+        LasState::Valid => MLas::Valid,
+    }
+}
+
+fn rstate(s: MLas) -> LasState {
+    match s {
+        MLas::Uninitialized => LasState::Uninitialized,
+        MLas::Discovery => LasState::Discovery,
+        MLas::Verification => LasState::Verification,
+        MLas::Valid => LasState::Valid,
+    }
+}
+
+pub(crate) fn to_model(r: &TokenRing) -> Model {
+    Model { las: las_of(r), state: mstate(r.las_state), ts: r.this_station, ns: r.next_station, ps: r.previous_station }
+}
+
+pub(crate) fn from_model(m: &Model) -> TokenRing {
+    let mut active_stations: bitvec::BitArr!(for 128) = bitvec::array::BitArray::ZERO;
+    active_stations.data = words_of(m.las);
+    TokenRing {
+        active_stations,
+        las_state: rstate(m.state),
+        this_station: m.ts,
+        next_station: m.ns,
+        previous_station: m.ps,
+    }
+}
+
+pub(crate) fn any_las_state() -> MLas {
+    match kani::any::<u8>() {
+        0 => MLas::Uninitialized,
+        1 => MLas::Discovery,
+        2 => MLas::Verification,
+        _ => MLas::Valid,
+    }
+}
+
+/// Arbitrary ring view satisfying the representation invariant: only addresses 0..=125 in the
+/// LAS, NS/PS are the cyclic neighbours of TS in it.
+pub(crate) fn any_model(ts: u8) -> Model {
+    let las: u128 = kani::any();
+    kani::assume(las & !ADDR_MASK == 0);
+    let (ns, ps) = Model::neighbours(las, ts);
+    Model { las, state: any_las_state(), ts, ns, ps }
+}
+
+/// Like `any_model`, but NS/PS are free (for states where they need not be neighbours yet).
+pub(crate) fn ring_inv(r: &TokenRing) -> bool {
+    let m = to_model(r);
+    let (ns, ps) = Model::neighbours(m.las, m.ts);
+    m.las & !ADDR_MASK == 0 && m.ts <= 125 && m.ns == ns && m.ps == ps
+}
+
+// ---- model stubs operating on the real struct (used by the L2 harnesses via #[kani::stub]) ----
+
+pub(crate) fn stub_witness_token_pass(r: &mut TokenRing, sa: crate::Address, da: crate::Address) {
+    let mut m = to_model(r);
+    m.witness(sa, da);
+    *r = from_model(&m);
+}
+
+pub(crate) fn stub_set_next_station(r: &mut TokenRing, address: crate::Address) {
+    let mut m = to_model(r);
+    m.set_next(address);
+    *r = from_model(&m);
+}
+
+pub(crate) fn stub_remove_station(r: &mut TokenRing, address: crate::Address) {
+    let mut m = to_model(r);
+    m.remove(address);
+    *r = from_model(&m);
+}
